@@ -26,6 +26,10 @@ func runC15(c *CaseCtx) {
 	}
 	class := "merge-" + kind
 	u := defaultUniverse(r, 2, 5+r.Intn(8), kind != "kv")
+	if kind == "mixed" {
+		// the same bucket name and key used by a key/value pair and by a set: separate namespaces that Merge must keep apart
+		u.SetKeys = append(u.SetKeys, u.KVKeys[0], u.KVKeys[1])
+	}
 	run := NewRunner(c, cfg, u, class)
 	c.Log("cfg %s buckets=%v kind=%s", cfg, u.Buckets, kind)
 	// an injector leaves records of failed transactions in the log (a write error after the first records).
